@@ -4,7 +4,7 @@ usage: tools/confirm_seed.py <Cxx> <mN> [<check-prop> ...]"""
 import json, os, shutil, subprocess, sys
 prop, m = sys.argv[1], sys.argv[2]
 checks = sys.argv[3:] or [prop]
-src = f"/tmp/wt/{prop}/_seed"
+src = f"/tmp/wt/{prop}/_seed" if os.path.isdir(f"/tmp/wt/{prop}/_seed") else f"/tmp/seeds_backup/{prop}"
 wt = "/tmp/wt/confirm"
 def sh(cmd, **kw):
     return subprocess.run(cmd, shell=True, capture_output=True, text=True, **kw)
